@@ -90,3 +90,26 @@ Theorem C01_example : isotonic_regression [3; 1; 2; 5; 4]%Q (Some [1; 2; 1; 1; 3
   /\ [3; 1; 2; 5; 4]%Q <> [] /\ valid_w [3; 1; 2; 5; 4]%Q (Some [1; 2; 1; 1; 3]%Q).
 Proof. exact (conj ex_iso_mean ex_iso_mean_valid). Qed.
 Print Assumptions C01_example.
+
+(* ---- float twin (primitive floats; the names listed by Print Assumptions are Coq's primitive operations, not axioms) ---- *)
+From Coq Require Import PrimFloat QArith List Bool.
+Import ListNotations.
+From MD Require Import model.Pava model.PavaFloat proofs.PavaFloatProps proofs.PavaFloatExact.
+
+(* the binary64 twin of the mean PAVA (model/PavaFloat.v), which the correspondence run compares BIT FOR BIT with the implementation on arbitrary doubles, agrees with the rational model (block vector equal, values equal as rationals) whenever every operation of the run is exact (exact_run, a computable predicate; true e.g. on dyadic inputs with few significant bits) *)
+Theorem C01_float_twin_agrees_with_rational_model :
+  forall y w : list float,
+       combine y w <> [] ->
+       exact_run y w = true ->
+       exists (qx : list Q) (qr : list nat),
+         pava (combine (map val y) (map val w)) = Some (qx, qr) /\
+         Forall2 rep (fst (pava_f y w)) qx /\ snd (pava_f y w) = qr.
+Proof. exact pava_f_exact_agrees. Qed.
+Print Assumptions C01_float_twin_agrees_with_rational_model.
+
+Theorem C01_float_twin_total :
+  forall y w : list float,
+       exists stk : list fblk,
+         pava_blocks_f (combine y w) = Some stk /\ pava_f y w = (fexpand stk, frvec stk).
+Proof. exact pava_f_fuel. Qed.
+Print Assumptions C01_float_twin_total.
